@@ -25,14 +25,21 @@ func c13(cx *Ctx, r *ev.Report) {
 	// positive check leads to the context's error without another Step
 	ruleC := "CHECK-EVERY-CYCLE: every iteration of Run's loop tests cancellation before its Step, and a positive test returns the context's error without executing another Step (from R-AUTOMATON)"
 	var det []string
-	for _, v := range res.violations {
-		det = append(det, v)
-	}
-	if !res.hasCheck {
-		det = append(det, "no cancellation test recognised in Run")
-	}
-	if res.accepted["cancelled->ctxerr"] == 0 {
-		det = append(det, "no return of the context's error after a positive cancellation test")
+	if sem := cx.runSem(); sem.err == nil {
+		det = append(det, sem.violations...)
+		if sem.returns[retCtx] == 0 {
+			det = append(det, "no return of the context's error")
+		}
+	} else {
+		for _, v := range res.violations {
+			det = append(det, v)
+		}
+		if !res.hasCheck {
+			det = append(det, "no cancellation test recognised in Run")
+		}
+		if res.accepted["cancelled->ctxerr"] == 0 {
+			det = append(det, "no return of the context's error after a positive cancellation test")
+		}
 	}
 	sort.Strings(det)
 	r.Check(len(det) == 0, "C13/check-every-cycle/func=(*CPU).Run", ruleC, pos, "shape", det...)
